@@ -56,3 +56,23 @@ package vgiotel
 //@   at call trace.Span.IsRecording assert [countedfirst] metricsRead && (metricsOn ==> counterRead) && (metricsOn && haveCounter ==> counted)
 //@   ensures [local_endedifrecording] recording ==> ended
 //@   ensures [local_countedifon] typeof(token) == *spanToken ==> metricsRead && (metricsOn ==> counterRead) && (metricsOn && haveCounter ==> counted)
+
+// InstrumentServer: the hook installed on the server is the one built here; whenever metrics are
+// on, its request counter was created under the metric's name, "rpc.server.requests", before the
+// hook is installed (and never when they are off).
+//
+//@ func InstrumentServer
+//@   property C43
+//@   pathflag counterMade
+//@   pathflag installed
+//@   at call metric.Meter.Int64Counter assert [requestmetric] arg1 == "rpc.server.requests" && !counterMade
+//@   at call metric.Meter.Int64Counter mark counterMade
+//@   pathflag metricsOn
+//@   pathflag metricsRead
+//@   at load OtelConfig.EnableMetrics mark metricsRead
+//@   at load OtelConfig.EnableMetrics setflag metricsOn value
+//@   at call metric.Meter.Int64Counter assert [onlywhenon] metricsOn
+//@   at call (*vgirpc.Server).SetDispatchHook assert [counterfirst] metricsRead && (metricsOn ==> counterMade)
+//@   at call (*vgirpc.Server).SetDispatchHook assert [ownhook] !installed && arg0 == server && typeof(arg1) == *otelHook && as(arg1, "*otelHook") == hook
+//@   at call (*vgirpc.Server).SetDispatchHook mark installed
+//@   ensures [local_installed] installed
